@@ -7,7 +7,7 @@ from io_drawer.drawer_type import MEX_DRAWER_TYPE, NIMITZ_DRAWER_TYPE
 
 FUNCTIONS = ["io_drawer.hlog.parse_hlog_data", "io_drawer.hlog.get_hlog_fields", "pel.hexdump.hexdump", "DataStream.check_range/get_int"]
 
-TABLE_A = [(1, "fa_one"), (2, "fa_two"), (1, "fa_three"), (2, "fa_four"), (2, "fa_five"), (1, "fa_six")]
+TABLE_A = [(1, "fa_one"), (2, "fa two (x/y)"), (1, "fa-three"), (2, "fa_four"), (2, "Fan 5 RPM."), (1, "fa_six")]
 TABLE_B = [(2, "fb_one"), (1, "fb_two"), (1, "fb_three"), (2, "fb_four")]
 
 
@@ -31,14 +31,15 @@ def shipped(name):
 
 
 CASES = ["A:w%d" % w for w in (0, 2, 4, 6)] + ["A:len", "B:w0", "B:len", "mex:w0", "mex:w17", "mex:len", "nimitz:w30", "mex:long",
-         "A:tail", "mex:tail"]
+         "A:tail", "mex:tail", "A:z0", "A:z3", "B:z0", "mex:z16"]
 HARNESSES = [
-    {"fn": "h_fields", "cases": CASES, "quick_cases": ["A:w2", "A:len", "mex:w17", "mex:long", "B:len", "A:tail"], "timeout": {"quick": 120, "thorough": 400}},
+    {"fn": "h_fields", "cases": CASES, "quick_cases": ["A:w2", "A:len", "mex:w17", "mex:long", "B:len", "A:tail", "A:z0", "mex:z16"], "timeout": {"quick": 120, "thorough": 400}},
     {"fn": "h_two_tables", "cases": ["AB", "BA"], "timeout": {"quick": 90, "thorough": 300}},
 ]
 BOUNDS = {"tables": "two synthetic field tables (sizes 1,2,1,2,2,1 and 2,1,1,2; both accepted header layouts) and both shipped tables",
           "data": "a window of 3 symbolic bytes at a catalogue offset with the length fixed at the full record + 2, or the length "
-                  "symbolic from 0 to full + 2 with concrete non-zero bytes; one 70-byte record",
+                  "symbolic from 0 to full + 2 with concrete non-zero bytes; one 70-byte record; the window surrounded by zeros only; "
+                  "field names with blanks and punctuation in the synthetic table",
           "history": "the same header path serving a different table on the next call"}
 ASSUMPTIONS = ["open() of the header file replaced by an in-memory file for the synthetic tables (E5)"]
 OUTSIDE = ["arbitrary header-file grammars", "more than 3 symbolic data bytes at once"]
@@ -123,6 +124,12 @@ def h_fields() -> bool:
         w = sym_bytes("w", 3)
         data = mkbytes(fill[:full], w)
         cps = list(fill[:full]) + [w[0], w[1], w[2]]
+    elif what[0] == "z":
+        # every byte outside the 3-byte symbolic window is zero (a value 0xNN00 followed by nothing but zeros)
+        L, p = full + 2, int(what[1:])
+        w = sym_bytes("w", 3)
+        data = mkbytes(bytes(p), w, bytes(L - p - 3))
+        cps = [0] * p + [w[0], w[1], w[2]] + [0] * (L - p - 3)
     else:
         L = 70 if what == "long" else full + 2
         p = 64 if what == "long" else int(what[1:])
